@@ -111,7 +111,7 @@ def run(ctx):
         alphas = [Fraction(3, 10), Fraction(1), Fraction(7)]
         Ls = [Fraction(1, 10), Fraction(1), Fraction(7, 2)]
         KN = [(0, 0), (0, 3), (1, 1), (1, 4), (2, 2), (2, 5), (3, 7), (5, 5), (6, 40), (40, 2500), (300, 301)]
-        gs = [Fraction(37, 100), Fraction(1, 10**12)]
+        gs = [Fraction(37, 100), Fraction(1, 10**12), Fraction(0)]  # the last: a Gamma draw that underflows to exactly 0.0
         if not ctx.quick:
             As += [Fraction(7, 3)]
             Bs += [Fraction(1, 7)]
